@@ -74,6 +74,19 @@ def gen_ops(tier, rng):
                     fs = rng.choice([-1, rng.randrange(d + p)])
                     subs.append(f"v {size} {rng.randrange(1, 1<<20)} {fs} {rng.randrange(size)}")
             ops.append((f"hist {fam} {opts} {d} {p} ; " + " ; ".join(subs), {"cat": f"long-{fam}", "n": len(subs)}))
+    # pooled scratch of the generated-kernel paths: SMALL serial calls (below minSplitSize, few outputs) followed by LARGE
+    # goroutine-split calls with more than 10 outputs on ONE encoder (AVX2 rows: the block planner slices the pooled buffer)
+    for (fam, opts, d, p) in [("default", "gfni-,avxgfni-", 4, 12), ("default", "gfni-,avxgfni-", 6, 11), ("cauchy", "gfni-,avxgfni-", 10, 16),
+                              ("default", "-", 4, 12), ("default", "gfni-,avxgfni-", 4, 6)]:
+        for _ in range(4 if tier == "quick" else 40):
+            subs = []
+            for _ in range(rng.randint(2, 5)):
+                E = sorted(rng.sample(range(d + p), rng.randint(1, 2)))
+                subs.append(sub_r(rng, d, p, rng.choice([64, 256, 1000, 2048]), E))
+                big = rng.choice([65536, 100000, 200000])
+                subs.append(rng.choice([f"e {big} {rng.randrange(1, 1<<20)}", f"v {big} {rng.randrange(1, 1<<20)} -1 0",
+                                        sub_r(rng, d, p, big, sorted(rng.sample(range(d, d + p), min(p, 11))), "all", [])]))
+            ops.append((f"guard hist {fam} {opts} {d} {p} ; " + " ; ".join(subs), {"cat": "pool-small-then-large", "n": len(subs)}))
     # GF8 locator cache forced on large shard counts: erasure sets that differ in ONE index anywhere in 0..d+p
     for (d, p) in [(200, 32), (128, 128), (180, 64), (100, 30), (60, 4), (251, 4)]:
         m = 1
